@@ -259,11 +259,21 @@ def run_property(prop, tier, jobs, keep):
     cfgs = sorted(set(h.cfg for h in hs))
     tdirs = {}
     build_s = 0.0
+    base = os.environ.get("VERIF_TARGET_DIR")
     for c in cfgs:
-        base = os.environ.get("VERIF_TARGET_DIR")
         tdirs[c] = os.path.join(base, c) if base else os.path.join(scratch, "t-" + c)
-        ok, out, wall = warmup(crate, prop_feature, c, tdirs[c], logdir)
-        build_s += wall
+
+    def build_cfg(c):
+        # one crate copy per configuration so that the configurations can be built in parallel
+        cr = crate if c == cfgs[0] else prepare_crate(scratch, "h-" + c)
+        return c, cr, warmup(cr, prop_feature, c, tdirs[c], logdir)
+
+    crates = {}
+    with cf.ThreadPoolExecutor(max_workers=len(cfgs) or 1) as ex:
+        built = list(ex.map(build_cfg, cfgs))
+    for c, cr, (ok, out, wall) in built:
+        crates[c] = cr
+        build_s = max(build_s, wall)
         if not ok:
             tail = "\n".join(out.splitlines()[-40:])
             log("BUILD FAILED for configuration %s:\n%s" % (c, tail))
@@ -309,7 +319,7 @@ def run_property(prop, tier, jobs, keep):
             used[0] += h.mem
         try:
             cmd = kani_cmd(h, prop_feature, tdirs[h.cfg])
-            rc, out, wall, to = kani_run.run_cmd(cmd, crate, h.timeout + 120, h.mem, os.path.join(logdir, h.name + "." + h.cfg + ".log"))
+            rc, out, wall, to = kani_run.run_cmd(cmd, crates.get(h.cfg, crate), h.timeout + 120, h.mem, os.path.join(logdir, h.name + "." + h.cfg + ".log"))
             r = kani_run.parse_output(h.key, out, rc, to, wall)
             return h, r
         finally:
@@ -347,7 +357,7 @@ def run_property(prop, tier, jobs, keep):
             return
         cmd = kani_cmd(h, prop_feature, tdirs[h.cfg], ["-Z", "concrete-playback", "--concrete-playback=print"])
         # trace generation needs more memory than the verdict run
-        rc, out, wall, to = kani_run.run_cmd(cmd, crate, 2 * h.timeout + 300, max(2 * h.mem, 16), os.path.join(logdir, h.name + "." + h.cfg + ".playback.log"))
+        rc, out, wall, to = kani_run.run_cmd(cmd, crates.get(h.cfg, crate), 2 * h.timeout + 300, max(2 * h.mem, 16), os.path.join(logdir, h.name + "." + h.cfg + ".playback.log"))
         pbs = [p for p in kani_run.parse_playback(out) if p["kind"] != "cover"]
         by_label = {}
         for p in pbs:
